@@ -36,7 +36,7 @@ type vC17Policy struct {
 }
 
 // vC17Build draws the metadata of one case. now is the real instant captured at case start.
-func vC17Build(rt *rapid.T, now time.Time, classes map[string]bool) (*meta.Data, []vC17Policy) {
+func vC17Build(rt *rapid.T, now time.Time, classes map[string]bool, want map[string]time.Duration) (*meta.Data, []vC17Policy) {
 	d := &meta.Data{Index: 1}
 	nNodes := rapid.IntRange(1, 3).Draw(rt, "dataNodes")
 	for i := 0; i < nNodes; i++ {
@@ -65,6 +65,10 @@ func vC17Build(rt *rapid.T, now time.Time, classes map[string]bool) (*meta.Data,
 			if err := d.CreateRetentionPolicy(db, rp, j == 0); err != nil {
 				rt.Fatalf("%s CreateRetentionPolicy(%v): %v", verifkit.Sig("harness-setup"), rp, err)
 			}
+			if got, _ := d.RetentionPolicy(db, rp.Name); got == nil || got.Duration != dur {
+				rt.Fatalf("%s CreateRetentionPolicy(%s.%s, duration %s) stored %v", verifkit.Sig("policy-duration-not-stored"), db, rp.Name, dur, got)
+			}
+			want[db+"."+rp.Name] = dur
 			pols = append(pols, vC17Policy{db, rp.Name})
 		}
 	}
@@ -111,16 +115,18 @@ func vC17AddGroups(rt *rapid.T, d *meta.Data, p vC17Policy, now time.Time, n int
 
 // vC17DropNearBoundary removes (directly, harness-side) every group whose expiry instant, or whose prune
 // instant, is within vMargin of now: for those the verdict would depend on the wall clock.
-func vC17DropNearBoundary(d *meta.Data, now time.Time) (dropped int) {
+func vC17DropNearBoundary(d *meta.Data, now time.Time, want map[string]time.Duration) (dropped int) {
 	for i := range d.Databases {
 		for j := range d.Databases[i].RetentionPolicies {
 			rp := &d.Databases[i].RetentionPolicies[j]
 			var keep []meta.ShardGroupInfo
 			for _, g := range rp.ShardGroups {
 				near := false
-				if rp.Duration != 0 {
-					x := g.EndTime.Add(rp.Duration).Sub(now)
-					near = x > -vMargin && x < vMargin
+				for _, dur := range []time.Duration{rp.Duration, want[d.Databases[i].Name+"."+rp.Name]} {
+					if dur != 0 {
+						x := g.EndTime.Add(dur).Sub(now)
+						near = near || (x > -vMargin && x < vMargin)
+					}
 				}
 				if g.Deleted() {
 					x := now.Sub(g.DeletedAt) - vPruneAge
@@ -175,12 +181,40 @@ func vC17Mutate(rt *rapid.T, m *vRetMeta, pols []vC17Policy, now time.Time, clas
 	p := rapid.SampledFrom(pols).Draw(rt, "policy")
 	switch k := rapid.SampledFrom([]string{"alterDuration", "alterDuration", "markDeletedNow", "markDeletedLongAgo", "markDeleted13d", "truncate", "newGroups"}).Draw(rt, "mutation"); k {
 	case "alterDuration":
+		// through the real Data.UpdateRetentionPolicy: finite->INF, INF->finite, shorter, longer (a duration
+		// below the shard duration is refused by the validation and leaves everything as it was)
+		old := m.want[p.DB+"."+p.RP]
 		nd := rapid.SampledFrom(vC17Durations).Draw(rt, "newDuration")
+		if rapid.IntRange(0, 3).Draw(rt, "toInfinite") == 0 {
+			nd = 0
+		}
 		err := m.update(func(d *meta.Data) error {
-			return d.UpdateRetentionPolicy(p.DB, p.RP, &meta.RetentionPolicyUpdate{Duration: &nd}, false)
+			if err := d.UpdateRetentionPolicy(p.DB, p.RP, &meta.RetentionPolicyUpdate{Duration: &nd}, false); err != nil {
+				return err
+			}
+			if got, _ := d.RetentionPolicy(p.DB, p.RP); got == nil || got.Duration != nd {
+				rt.Fatalf("%s UpdateRetentionPolicy(%s.%s, duration %s -> %s) returned nil but the stored duration is %v", verifkit.Sig("alter-duration-not-applied"), p.DB, p.RP, old, nd, got.Duration)
+			}
+			return nil
 		})
-		classes[fmt.Sprintf("mutation:alterDuration:ok=%v", err == nil)] = true
-		return fmt.Sprintf("alter %s.%s duration -> %s (err=%v)", p.DB, p.RP, nd, err)
+		kind := "same"
+		switch {
+		case err != nil:
+			kind = "refused"
+		case old != 0 && nd == 0:
+			kind = "finite->inf"
+		case old == 0 && nd != 0:
+			kind = "inf->finite"
+		case nd < old:
+			kind = "shorter"
+		case nd > old:
+			kind = "longer"
+		}
+		if err == nil {
+			m.want[p.DB+"."+p.RP] = nd
+		}
+		classes["mutation:alterDuration:"+kind] = true
+		return fmt.Sprintf("alter %s.%s duration %s -> %s (err=%v)", p.DB, p.RP, old, nd, err)
 	case "markDeletedNow", "markDeletedLongAgo", "markDeleted13d":
 		gs := vC17AllGroups(m.get())
 		if len(gs) == 0 {
@@ -236,13 +270,14 @@ func TestVerifC17Retention(t *testing.T) {
 		classes := map[string]bool{}
 		var trace []string
 		var canon strings.Builder
-		d, pols := vC17Build(rt, now, classes)
-		m := &vRetMeta{data: d}
+		want := map[string]time.Duration{}
+		d, pols := vC17Build(rt, now, classes, want)
+		m := &vRetMeta{data: d, want: want}
 		for i, n := 0, rapid.IntRange(0, 4).Draw(rt, "preMutations"); i < n; i++ {
 			trace = append(trace, vC17Mutate(rt, m, pols, now, classes))
 		}
 		m.update(func(d *meta.Data) error {
-			if k := vC17DropNearBoundary(d, now); k > 0 {
+			if k := vC17DropNearBoundary(d, now, m.want); k > 0 {
 				classes["dropped-near-boundary-group"] = true
 			}
 			return nil
@@ -280,10 +315,10 @@ func TestVerifC17Retention(t *testing.T) {
 		for p := 0; p < passes; p++ {
 			if p > 0 && rapid.Bool().Draw(rt, "mutateBetween") {
 				trace = append(trace, vC17Mutate(rt, m, pols, now, classes))
-				m.update(func(d *meta.Data) error { vC17DropNearBoundary(d, now); return nil })
+				m.update(func(d *meta.Data) error { vC17DropNearBoundary(d, now, m.want); return nil })
 			}
 			nd := nodes[rapid.IntRange(0, nNodes-1).Draw(rt, "node")]
-			before := m.get()
+			before := m.view(m.get())
 			localBefore := nd.localIDs()
 			var failSG, failShard map[uint64]bool
 			failPrune := false
@@ -310,7 +345,7 @@ func TestVerifC17Retention(t *testing.T) {
 			if t1.Sub(now) > 30*time.Second {
 				vC17Inconclusive("case ran longer than 30 s: the margin around generated instants is no longer comfortable")
 			}
-			after := m.get()
+			after := m.view(m.get())
 			// ---- classification of the situation
 			errHit := false
 			for _, e := range ev {
@@ -368,7 +403,7 @@ func TestVerifC17Retention(t *testing.T) {
 			for _, e := range ev {
 				switch e.Kind {
 				case "dsg":
-					rp, g := vFindGroup(e.At, e.DB, e.RP, e.ID)
+					rp, g := vFindGroup(m.view(e.At), e.DB, e.RP, e.ID)
 					switch {
 					case g == nil:
 						rt.Fatalf("%s DeleteShardGroup(%s,%s,%d): no such group in the metadata", verifkit.Sig("retention-deletes-missing-group"), e.DB, e.RP, e.ID)
@@ -379,7 +414,7 @@ func TestVerifC17Retention(t *testing.T) {
 					}
 					shape = append(shape, fmt.Sprintf("dsg:%v", e.Err))
 				case "ds":
-					rp, g := vFindGroupOfShard(e.At, e.ID)
+					rp, g := vFindGroupOfShard(m.view(e.At), e.ID)
 					switch {
 					case g == nil:
 						rt.Fatalf("%s DeleteShard(%d): the shard is unknown to the metadata", verifkit.Sig("retention-deletes-unknown-shard"), e.ID)
